@@ -32,6 +32,9 @@ type Decl18 struct {
 // DeclCase is the case type of C18.
 type DeclCase struct {
 	Decls []Decl18 `json:"decls"`
+	// SpecFirst: the application's Spec is assigned BEFORE the declarations (the usual layout of a program); the spec
+	// mentions no argument, so only the declaration-time part of the check applies
+	SpecFirst bool `json:"spec_first,omitempty"`
 }
 
 var argNameRe = regexp.MustCompile(`^[A-Z][A-Z0-9_]*$`)
@@ -122,6 +125,9 @@ func declare18(app *cli.Cli, d Decl18) probe18 {
 func build18(c *DeclCase) (app *cli.Cli, probes []probe18, panicAt int, panicVal interface{}) {
 	app = cli.App("app", "")
 	app.ErrorHandling = flag.ContinueOnError
+	if c.SpecFirst {
+		app.Spec = "[OPTIONS]"
+	}
 	panicAt = -1
 	for i, d := range c.Decls {
 		func() {
@@ -165,6 +171,10 @@ func CheckC18(c *DeclCase, st *Stats) *Violation {
 		return nil
 	}
 	st.Class("outcome:all-accepted")
+	if c.SpecFirst {
+		st.Class("layout:spec-assigned-before-the-declarations")
+		return nil
+	}
 	// every listed name addresses its own variable: probe one name per run
 	nargs := 0
 	for _, d := range c.Decls {
